@@ -1946,8 +1946,9 @@ class ContractionTree:
             if progbar:
                 pbar.close()
 
-        # invalidate any compiled contractions
-        tree.contraction_cores.clear()
+        # invalidate any compiled contractions and cached index orderings
+        # (those of un-touched parent nodes depend on the rebuilt children)
+        tree.reset_contraction_indices()
 
         return tree
 
